@@ -54,7 +54,7 @@ class Prop:
             "event log (operations, outcomes, eval calls)")
     probes = ["op_scalar", "op_array", "op_view_create", "op_on_view", "op_on_packed_view", "expect_indexerror_order",
               "expect_indexerror_finite", "expect_runtimeerror_cycle", "masked_result", "precached_read",
-              "dep_nested_eval", "dep_slice_eval", "dep_view_eval", "nested_list_index", "none_valued_read", "kept_view_created", "op_on_kept_view", "npint_index", "cycle_len1", "cycle_len2", "cycle_len3", "view_of_view", "wrong_length", "bare_index", "pop_cached", "pop_absent", "contains_true", "contains_false"]
+              "dep_nested_eval", "dep_slice_eval", "dep_view_eval", "nested_list_index", "none_valued_read", "kept_view_created", "op_on_kept_view", "npint_index", "cycle_len1", "cycle_len2", "cycle_len3", "view_of_view", "wrong_length", "bare_index", "oob_scalar_view", "op_on_oob_view", "eval_formats_series", "pop_cached", "pop_absent", "contains_true", "contains_false"]
     components_real = ["pymablock.series.BlockSeries (__getitem__, views, pop, __contains__, _check_finite, _check_number_perturbations)"]
     components_stub = ["element eval callbacks (simulator-owned table with dependency edges)", "series names (token_hex counter)"]
     assumptions = ["orders < 5, at most 4 finite and 2 infinite dimensions (5 in total), sizes 1-3",
@@ -125,7 +125,9 @@ class Prop:
                 try:
                     vshape = list(np.empty(shape)[_item_to_py(item)].shape)
                 except Exception:
-                    continue
+                    if not all(isinstance(c, int) for c in item):
+                        continue
+                    vshape = []  # out-of-bounds scalar view: later operations on it must all raise IndexError
                 vt = ("v", len(ops) - 1)
                 targets.append(vt)
                 dims[vt] = (vshape, ninf)
@@ -138,7 +140,8 @@ class Prop:
             for _ in range(r.randint(1, 4)):
                 orders = [r.randrange(K) if r.random() < 0.7 else {"s": [0, r.randint(1, K), None]} for _ in range(roots[s]["ninf"])]
                 ops.insert(r.randint(0, len(ops)), ["kidx", s, fin, orders])
-        return {"roots": roots, "edges": edges, "ops": ops}
+        # callbacks that log: every eval first formats its own series (repr / str / f-string)
+        return {"roots": roots, "edges": edges, "ops": ops, "talkative": r.random() < 0.25}
 
     @staticmethod
     def _rank(roots, s, idx):
@@ -171,8 +174,8 @@ class Prop:
                 c = r.choice([None, None, 1, 2])
                 item.append({"s": [a, b, c]})
         if finite_only:
-            if all(isinstance(c, int) for c in item):
-                # keep scalar views in bounds (an out-of-bounds scalar view only fails on use)
+            if all(isinstance(c, int) for c in item) and not (fault and r.random() < 0.5):
+                # mostly in bounds; an out-of-bounds scalar view may fail at creation or on every use, never serve elements
                 item = [(c if -d <= c < d else 0) if d else {"s": [None, None, None]} for c, d in zip(item, shape)]
             return item
         fault_dim = r.randrange(ninf) if (fault and ninf and r.random() < 0.7) else None
@@ -313,11 +316,16 @@ class Prop:
         real_roots = []
         kept = {}  # views created and kept by element evals
 
+        talkative = bool(case.get("talkative"))
+
         def make_eval(s):
             def ev(*index):
                 index = tuple(int(i) for i in index)
                 calls[(s, index)] = calls.get((s, index), 0) + 1
                 events.append(("eval", s, index))
+                if talkative:
+                    bump("eval_formats_series")
+                    repr(real_roots[s]), str(real_roots[s]), f"{real_roots[s]}"
                 for t, b in requests.get((s, index), ()):
                     bump("dep_nested_eval")
                     if b and b[0] == "keep":
@@ -423,13 +431,32 @@ class Prop:
             cached_before = {id(x): set(x._data) for x in all_series}
             # ---------------- prediction
             expect = None  # ("view", Dv) | ("IndexError", why) | ("RuntimeError",) | ("value", ids) | ("either", ids)
+            if kind == "oobview":
+                # a view of a block that does not exist: numpy says IndexError; it must never serve an element
+                bump("op_on_oob_view")
+                try:
+                    res = series[item]
+                except IndexError:
+                    events.append(("op", opi, "oobview-use-IndexError"))
+                except Exception as e:
+                    fail("oob-view", f"op#{opi} {tgt}{item_spec}: a view of an out-of-bounds block raised {type(e).__name__}: {e} (numpy: IndexError)")
+                else:
+                    if isinstance(res, BlockSeries):
+                        events.append(("op", opi, "oobview-view"))
+                    elif isinstance(res, np.ma.MaskedArray) and res.size == 0:
+                        events.append(("op", opi, "oobview-empty"))  # an empty selection touches no element: nothing is served
+                    else:
+                        fail("oob-view", f"op#{opi} {tgt}{item_spec}: a view of an out-of-bounds block returned {self._show(res)} (numpy: IndexError)")
+                if calls != calls_before:
+                    fail("oob-view", f"op#{opi} {tgt}{item_spec}: a view of an out-of-bounds block evaluated elements")
+                continue
             if len(item) == nfin and ninf:
                 try:
                     Dv = D[item + (slice(None),) * ninf]
                     expect = ("view", Dv)
                 except IndexError:
                     # an all-integer out-of-bounds view may fail at creation or only on use
-                    expect = ("IndexError", "finite") if not all(isinstance(c, int) for c in item) else ("skip",)
+                    expect = ("IndexError", "finite") if not all(isinstance(c, int) for c in item) else ("oobview",)
             elif len(item) != nfin + ninf:
                 expect = ("IndexError", "length")
                 bump("wrong_length")
@@ -474,7 +501,19 @@ class Prop:
                 got = ("RecursionError", got[1])
             desc = f"op#{opi} {tgt}{item_spec}"
             # ---------------- compare
-            if expect[0] == "skip":
+            if expect[0] == "oobview":
+                # numpy raises IndexError; the library may raise at creation or hand out a view that raises on every use
+                bump("oob_scalar_view")
+                if got[0] == "IndexError":
+                    events.append(("op", opi, "oobview-IndexError"))
+                elif got[0] == "ok" and isinstance(got[1], BlockSeries):
+                    targets[("v", label)] = (got[1], None, 0, ninf, "oobview", ())
+                    events.append(("op", opi, "oobview-created"))
+                else:
+                    fail("oob-view", f"{desc}: out-of-bounds block index, expected IndexError or a view, got {got[0]}: {self._show(got[1])}")
+                if calls != calls_before:
+                    fail("view-evaluates", f"{desc}: creating a view evaluated elements")
+            elif expect[0] == "skip":
                 events.append(("op", opi, "skip"))
             elif expect[0] == "view":
                 cats.add("view")
